@@ -85,6 +85,8 @@ pub fn body(class: u8, witness: bool) {
 harnesses! {
     common {
         #[cfg_attr(kani, kani::stub(std::env::var, crate::world::env::stub_var))]
+        #[cfg_attr(kani, kani::stub(<log4rs::encode::pattern::PatternEncoder as log4rs::encode::Encode>::encode, crate::util::stub_pattern_encode_cut))]
+        #[cfg_attr(kani, kani::stub(log4rs::encode::pattern::PatternEncoder::new, crate::util::stub_pattern_new_cut))]
     }
     #[kani::unwind(16)]
     fn console_policy() { body(2, false) }
